@@ -347,6 +347,7 @@ def check(prog, run):
         run.report(r, "%s:ResolutionContext.add_error:shape" % WRAP, ae.where(), "add_error does not set the path and append the error")
 
     check_memo_keys(prog, run)
+    check_seen_scope(prog, run)
 
     # ---- H1 request isolation
     r = run.rule("H1", "no request-scoped state outlives a request: executor caches are instance attributes created in __init__, "
@@ -414,7 +415,7 @@ def memo_sites(cls):
         for n in own_nodes(m.node):
             if not isinstance(n, ast.Try) or len(n.handlers) != 1 or n.handlers[0].type is None or "KeyError" not in ast.unparse(n.handlers[0].type):
                 continue
-            if not (len(n.body) == 1 and isinstance(n.body[0], ast.Return) and isinstance(n.body[0].value, ast.Subscript)):
+            if not (len(n.body) == 1 and isinstance(n.body[0], (ast.Return, ast.Assign)) and isinstance(n.body[0].value, ast.Subscript)):
                 continue
             sub = n.body[0].value
             base = sub.value
@@ -474,3 +475,28 @@ def check_memo_keys(prog, run):
                            "%s caches in self.%s under a key built from %s, but the cached value is computed from %s too: calls that "
                            "differ only in %s (e.g. the same field node executed against two implementing object types) share one entry"
                            % (m.name, cache, sorted(key_names), pmiss, pmiss))
+
+
+def check_seen_scope(prog, run, rule_id="K5"):
+    r = run.rule(rule_id, "the visited-fragment set of collect_fields / collect_fields_untyped is scoped to one selection set: only "
+                          "their own recursive calls pass it on; every other caller starts a fresh set (a set shared across nesting "
+                          "levels drops a fragment legitimately spread again deeper down)", 3)
+    for fname in ("collect_fields", "collect_fields_untyped"):
+        target = prog.get_func(CF, fname)
+        idx = target.params.index("_seen_fragments") if "_seen_fragments" in target.params else None
+        if idx is None:
+            raise AnalysisError("%s: visited-fragment parameter not found" % fname)
+        for f in prog.all_funcs():
+            for n in own_nodes(f.node):
+                if isinstance(n, ast.Call) and target in prog.resolve_call(f, n):
+                    passes = len(n.args) > idx or any(k.arg == "_seen_fragments" for k in n.keywords)
+                    r.instance("%s calls %s, passes visited set: %s" % (f.qualname, fname, passes))
+                    if passes and f is not target:
+                        run.report(r, "%s:%s:shares-visited-set(%s)" % (f.module.name, f.qualname, fname), f.where(n),
+                                   "%s hands its own visited-fragment set to %s: the set then spans several nesting levels and a "
+                                   "fragment spread a second time deeper in the document is silently skipped" % (f.qualname, fname))
+        # the default must create a fresh set per top-level call
+        fresh = any(isinstance(n, ast.Assign) and ast.unparse(n.targets[0]) == "_seen_fragments" and "set()" in ast.unparse(n.value) for n in own_nodes(target.node))
+        r.instance("%s creates a fresh set when none is given: %s" % (fname, fresh))
+        if not fresh:
+            run.report(r, "%s:%s:no-fresh-set" % (CF, fname), target.where(), "%s does not create a fresh visited set per call" % fname)
